@@ -82,6 +82,8 @@ def work(args):
         inp = [[(float(x) if as_float else x) for x in r] for r in rows]
         try:
             s = core.guarded(solve, copy.deepcopy(inp))
+            if isinstance(s, tuple) and s and s[0] == 'exc':
+                raise RuntimeError('solve did not return within the time limit (twice)')
             truthy = bool(s)
             va = s.varargs
         except Exception as e:
